@@ -472,6 +472,36 @@ def soft_permutation_pairs(rep, pa, rng, count):
     while len(recs) < count:
         shape = rng.choice([(2, 40), (2, 60), (3, 12), (2, 25)])
         c = invariance.big_continuum(pa, rng, shape, ["Adj", "Noun", "Verb"])
+        if len(recs) % 3 == 2:
+            # crowded: many long units over the same stretch of time - nearly every pair is a candidate (thousands of them)
+            # and their costs are small and close to each other
+            from pyannote.core import Segment
+            c = pa.Continuum()
+            k = rng.choice([30, 45, 60])
+            for a in ("ann_0", "ann_1"):
+                for _ in range(k):
+                    s0 = round(rng.uniform(0, 40), 2)
+                    c.add(a, Segment(s0, s0 + round(rng.uniform(30, 60), 2)), rng.choice(["Adj", "Noun"]))
+            shape = (2, k)
+        elif len(recs) % 3 == 0:
+            # near-copies: every other annotator repeats the first one with small jitter and some units cut in two -
+            # many covers within a hair of each other (tiny gaps between the optimum and its neighbours)
+            from pyannote.core import Segment
+            first = list(c.annotators)[0]
+            base_units = list(c[first])
+            c = pa.Continuum()
+            for u in base_units:
+                c.add(first, u.segment, u.annotation)
+            for k in range(1, shape[0]):
+                for u in base_units:
+                    s0 = u.segment.start + rng.choice([0, 0, 0.01, -0.02, 0.05])
+                    e0 = u.segment.end + rng.choice([0, 0, 0.01, -0.03, 0.04])
+                    if rng.random() < 0.25:
+                        mid = (s0 + e0) / 2
+                        c.add(f"ann_{k}", Segment(s0, mid), u.annotation)
+                        c.add(f"ann_{k}", Segment(mid, e0), u.annotation)
+                    else:
+                        c.add(f"ann_{k}", Segment(s0, e0), u.annotation)
         d = rng.choice([pa.PositionalSporadicDissimilarity(delta_empty=rng.choice([1.0, 0.5])),
                         pa.CombinedCategoricalDissimilarity(alpha=rng.choice([1, 3]), beta=1, delta_empty=1.0)])
         anns = list(c.annotators)
